@@ -17,6 +17,9 @@ mod c14_blk;
 mod c16_net;
 mod c10_mmio;
 mod c13_config;
+mod c11_pcicap;
+mod c12_pcibus;
+mod pciref;
 
 use proto::RunResult;
 use runner::{Ctx, Tier};
@@ -95,6 +98,8 @@ fn main() {
                 "C16" => c16_net::run(&ctx),
                 "C10" => c10_mmio::run(&ctx),
                 "C13" => c13_config::run(&ctx),
+                "C11" => c11_pcicap::run(&ctx),
+                "C12" => c12_pcibus::run(&ctx),
                 _ => {
                     eprintln!("unknown property {}", prop);
                     std::process::exit(2)
